@@ -741,6 +741,7 @@ def e1_equality_coverage(prog):
         rets = [p for p in E.paths if p.ended == 'return']
         ops = {1: ('p', 1, f.body.local_name(1) or ''), 2: ('p', 2, f.body.local_name(2) or '')}
         rep = set()
+        deferred = set()
         if E.truncated or not rets:
             r.viol('E1', 'component_eq/not-analysable', f.loc(), 'path enumeration cut off')
         for p in rets:
@@ -756,12 +757,47 @@ def e1_equality_coverage(prog):
             for fld in ('length', 'entity_identifiers', 'components'):
                 fi = anames.index(fld)
                 for side in (1, 2):
-                    if not any(pathsem.mentions(a_, lambda u: pathsem.is_field_of(u, 'archetype::Archetype', fi) and pathsem.mentions(u, lambda w: w == ops[side])) for a_ in good) and (fld, side) not in rep:
-                        rep.add((fld, side))
-                        r.viol('E1', 'component_eq/field-not-compared/%s' % fld, f.loc(), 'Archetype::component_eq can return true without a successful comparison involving `%s` of %s' % (fld, 'self' if side == 1 else 'other'))
+                    if not any(pathsem.mentions(a_, lambda u: pathsem.is_field_of(u, 'archetype::Archetype', fi) and pathsem.mentions(u, lambda w: w == ops[side])) for a_ in good):
+                        deferred.add((fld, side))
             if not any(a_[0] == 'call' and a_[1].endswith('::component_eq') for a_ in good) and 'walk' not in rep:
                 rep.add('walk')
                 r.viol('E1', 'component_eq/no-column-walk', f.loc(), 'component values are not compared (registry walk not called, or its verdict ignored)')
+        # what component_eq itself does not compare, every caller must have found equal on the paths where it
+        # relies on component_eq's `true` (the row count and the identifier column may be compared one level up)
+        if deferred:
+            callers = [g for g in prog.fns.values() if g.kind != 'Closure' and g.dp != f.dp and not g.path.startswith('archetype::Archetype::<R>::component_eq')
+                       and any(True for g2 in [g] + g.closures() for _ in g2.body.calls(lambda c: c['name'] == 'component_eq' and c['path'].startswith('archetype::Archetype::<R>::')))]
+            if not callers:
+                callers = [None]
+            for g in callers:
+                missing = set(deferred)
+                if g is not None:
+                    Eg = pathsem.analyse(prog, g, max_paths=20000)
+                    missing = set()
+                    for p in Eg.paths:
+                        if p.ended != 'return':
+                            continue
+                        for e in p.calls(lambda e: e['name'] == 'component_eq' and e['path'].startswith('archetype::Archetype::<R>::')):
+                            if p.lookup(e['ret']) is not True and p.ret != e['ret']:
+                                continue
+                            A, B = pathsem.strip_refs(e['vals'][0]), pathsem.strip_refs(e['vals'][1])
+                            good = [a_ for a_, v in p.conds if isinstance(a_, tuple) and ((v is True and (a_[0] == 'call' and not a_[1].endswith('::ne') or (a_[0] == 'bin' and a_[1] == 'Eq')))
+                                                                                         or (v is False and ((a_[0] == 'bin' and a_[1] == 'Ne') or (a_[0] == 'call' and a_[1].endswith('::ne')))))]
+                            for fld, side in deferred:
+                                fi = anames.index(fld)
+                                X = A if side == 1 else B
+
+                                def about(u, X=X, fi=fi, fld=fld):
+                                    if pathsem.is_field_of(u, 'archetype::Archetype', fi) and pathsem.mentions(u, lambda w: w == X):
+                                        return True
+                                    return fld == 'length' and isinstance(u, tuple) and u[0] == 'call' and u[1].startswith('archetype::Archetype::<R>::len') and pathsem.strip_refs(u[2][0]) == X
+                                if not any(pathsem.mentions(a_, about) for a_ in good):
+                                    missing.add((fld, side))
+                for fld, side in sorted(missing):
+                    if (fld, side) not in rep:
+                        rep.add((fld, side))
+                        r.viol('E1', 'component_eq/field-not-compared/%s' % fld, (g or f).loc(), 'Archetype::component_eq can return true without a successful comparison involving `%s` of %s%s' % (
+                            fld, 'self' if side == 1 else 'other', (', and its caller %s does not compare it either' % g.name) if g is not None else ''))
     return r
 
 
